@@ -17,6 +17,10 @@ type ClientServerStream struct {
 	ctx    context.Context
 	parent context.Context // the client's context; when it is done the client has gone away
 
+	// singleResponse is set for calls without server streaming: the client's RecvMsg then reports the outcome of
+	// the whole call, as it does over a real connection, instead of returning as soon as the response is handed over
+	singleResponse bool
+
 	header  metadata.MD
 	headerM sync.Mutex    // guards closing of headerC
 	headerC chan struct{} // closed once calls to clientStream.Header should return
@@ -141,7 +145,20 @@ func (c *clientStream) RecvMsg(m any) error {
 		if !ok {
 			return c.closeErrLocked()
 		}
-		return permissiveProtoMerge(m.(proto.Message), val.(proto.Message))
+		if err := permissiveProtoMerge(m.(proto.Message), val.(proto.Message)); err != nil {
+			return err
+		}
+		if c.singleResponse {
+			// without server streaming the response is only good if the handler then returns without an error
+			<-c.ctx.Done()
+			if perr := c.parent.Err(); perr != nil {
+				return status.FromContextError(perr).Err()
+			}
+			if c.closeErr != nil {
+				return c.closeErr
+			}
+		}
+		return nil
 	}
 }
 
